@@ -465,6 +465,40 @@ def h_blocks(ky, kx, extra, dtype):
         prove("fill_zero", fv == 0)
 
 
+def h_blocks_two_requests(dtype):
+    """state between requests: a window handed out earlier is still that window after the next
+    request (same assembler, same window size, another place)"""
+    import numpy as real_np
+
+    import odc.geo._blocks as blk
+
+    from ..npmodel import FakeBlock, RecArray
+
+    chy = (Int("cy0", 1, 1000), Int("cy1", 1, 1000))
+    chx = (Int("cx0", 1, 1000), Int("cx1", 1, 1000))
+    conc = symx.concrete_mode()
+    blocks = {}
+    for iy in range(2):
+        for ix in range(2):
+            shape = (chy[iy], chx[ix])
+            blocks[(iy, ix)] = real_np.full(shape, 10 * iy + ix + 1, dtype=dtype) if conc else FakeBlock((iy, ix), shape, dtype)
+    ba = blk.BlockAssembler(blocks, (chy, chx))
+    NY, NX = symx.s_sum(chy), symx.s_sum(chx)
+    h, w = Int("h", 1), Int("w", 1)
+    y0, x0, y1, x1 = Int("y0", 0), Int("x0", 0), Int("y1", 0), Int("x1", 0)
+    assume(And(y0 + h <= NY, x0 + w <= NX, y1 + h <= NY, x1 + w <= NX))
+    a = ba.extract(roi=(slice(y0, y0 + h), slice(x0, x0 + w)))
+    if conc:
+        a0 = a.copy()
+        b = ba[y1 : y1 + h, x1 : x1 + w]
+        prove("earlier_window_is_left_as_it_was", bool(real_np.array_equal(a, a0)))
+        return
+    wa, fa = list(a.writes), a.fill
+    b = ba.extract(roi=(slice(y1, y1 + h), slice(x1, x1 + w)))
+    prove("each_request_gets_its_own_array", isinstance(a, RecArray) and isinstance(b, RecArray) and a is not b)
+    prove("earlier_window_is_left_as_it_was", a.writes == wa and a.fill is fa)
+
+
 def h_blocks_roi(form):
     """the other ways of asking for a window: no roi, __getitem__, N-d roi with an integer on the
     extra axis (squeezed), leading-axes-only roi, negative/open slice bounds, integer in Y, too many
@@ -661,7 +695,7 @@ OBLIGATIONS = [
     Ob("T1_eq", h_tiles_eq, fixed(dict(ny=3, nx=7)), descr="Tiles equality", functions=("odc.geo.roi.Tiles.__eq__",), setup=setup),
     Ob("T2_var_basic", h_var_basic, tiered(_v(VAR_Q), _v(VAR_T)), descr="variable tiles: shape/base/chunks; region = cumulative offsets; tile_shape; locate inverse",
        functions=("odc.geo.roi.VariableSizedTiles",), bounds="chunk sizes >= 1 symbolic, total <= 2^31-1", stubs=("NumpyModel (int32 cumsum, diff, searchsorted)",), setup=setup),
-    Ob("T2_var_locate", h_var_locate, tiered(_v(VAR_Q), _v(VAR_T)), descr="every pixel lies in region(locate(pixel)); outside raises", functions=("odc.geo.roi.VariableSizedTiles.locate",), stubs=("NumpyModel",), setup=setup),
+    Ob("T2_var_locate", h_var_locate, tiered(_v(VAR_Q + [(4, 1), (1, 4)]), _v(VAR_T)), descr="every pixel lies in region(locate(pixel)); outside raises", functions=("odc.geo.roi.VariableSizedTiles.locate",), stubs=("NumpyModel",), setup=setup),
     Ob("T2_var_crop", h_var_crop, tiered(_v(VAR_Q), _v(VAR_T)), descr="slice of tiles = hull; crop = tiling of the cropped rectangle", functions=("odc.geo.roi.VariableSizedTiles.crop", "odc.geo.roi.VariableSizedTiles.__getitem__"), stubs=("NumpyModel",), setup=setup),
     Ob("T2_var_oob", h_var_oob, fixed(dict(ky=2, kx=2)), descr="index outside raises IndexError", functions=("odc.geo.roi.VariableSizedTiles.__getitem__",), stubs=("NumpyModel",), setup=setup),
     Ob("T3_clip", h_clip, tiered([dict(kind="regular", nsel=2), dict(kind="var", nsel=2)], [dict(kind=k, nsel=n) for k in ("regular", "var") for n in (1, 2, 3)]),
@@ -681,6 +715,8 @@ OBLIGATIONS = [
        descr="window given as None / __getitem__ / N-d roi with an integer on the extra axis (squeezed) / leading-axes-only / negative and open bounds / integer row; too many indices refused; planes_yx",
        functions=("odc.geo._blocks.BlockAssembler._norm_roi", "odc.geo._blocks.BlockAssembler.__getitem__", "odc.geo._blocks.BlockAssembler.planes_yx", "odc.geo.roi.roi_normalise"),
        bounds="1x2 blocks with a leading axis of 3; chunk sizes, window, indices and probe pixel symbolic", stubs=("NumpyModel recording full/copyto/squeeze",), setup=setup, timeout_ms=20000),
+    Ob("T5_two_requests", h_blocks_two_requests, fixed(dict(dtype="int16"), dict(dtype="float32")), descr="a window handed out by an earlier request is still that window after the next request of the same size",
+       functions=("odc.geo._blocks.BlockAssembler.extract", "odc.geo._blocks.BlockAssembler.__getitem__"), bounds="2x2 blocks with symbolic sizes, two windows of one symbolic size at symbolic places", stubs=("NumpyModel (recording full/empty/copyto, whole-array assignment)",), setup=setup),
     Ob("T5_errors", h_blocks_errors, fixed(), descr="BlockAssembler refuses blocks not matching the chunk table (iff), differing extra dims, too few dims",
        functions=("odc.geo._blocks.BlockAssembler._verify_shape",), bounds="chunk sizes and the second block's shape symbolic", setup=setup),
     Ob("T5_fill", h_blocks_fill, fixed(*[dict(dtype=d, fill=f) for d in ("uint8", "int16", "float32", "bool") for f in ("none", "nan", "255", "-1") if not (d == "bool" and f in ("255", "-1", "nan"))]),
